@@ -42,6 +42,22 @@ def jsonable(x: Any) -> Any:
     return repr(x)
 
 
+class VB:
+    """Per-shard violation bucket: counts everything, keeps up to 3 witnesses per signature."""
+
+    def __init__(self) -> None:
+        self.d: Dict[str, List[Any]] = {}
+
+    def add(self, sig: str, what: str, witness: Dict[str, Any]) -> None:
+        ent = self.d.setdefault(sig, [0, []])
+        ent[0] += 1
+        if len(ent[1]) < 3:
+            ent[1].append((what, jsonable(witness() if callable(witness) else witness)))
+
+    def __len__(self) -> int:
+        return sum(e[0] for e in self.d.values())
+
+
 class Ctx:
     def __init__(self, pid: str, tier: str, seed: int, replaying: bool = False,
                  confirm: bool = True) -> None:
@@ -67,8 +83,20 @@ class Ctx:
         if len(lst) < 3:
             lst.append((what, jsonable(witness)))
 
+    def merge_bucket(self, vb) -> None:
+        d = vb.d if isinstance(vb, VB) else vb
+        for sig, (cnt, wl) in d.items():
+            self.found_count[sig] = self.found_count.get(sig, 0) + cnt
+            lst = self.found.setdefault(sig, [])
+            for w in wl:
+                if len(lst) < 3:
+                    lst.append(tuple(w))
+
     def merge_violations(self, items) -> None:
         """items: iterable of (signature, what, witness) from worker shards."""
+        if isinstance(items, (VB, dict)):
+            self.merge_bucket(items)
+            return
         for sig, what, wit in items:
             self.violation(sig, what, wit)
 
